@@ -41,6 +41,14 @@ def cases(ctx):
             out.append(Case(P.pkt_line(fr, P.dollar_script()), ("dollar", name)))
             for _ in range(ctx.scale(2, 4)):
                 out.append(Case(P.pkt_line(fr, P.random_read_script(rng, layers)), ("random-reads", name)))
+    # frames with bytes after what the length fields announce (padding, trailers): still "exactly the captured bytes"
+    for name in core + ["eth-vlan-ipv4-tcp", "eth-ipv6-udp", "eth-ipv4-ipv6-udp", "eth-ipv4-icmp", "eth-arp"]:
+        layers = shapes[name]
+        for _ in range(ctx.scale(6, 60)):
+            fr = P.with_trailer(P.build(layers, rng, payload=P.rb(rng, rng.choice([0, 1, 4, 18]))), rng)
+            out.append(Case(P.pkt_line(fr, P.full_read_script(layers)), ("trailer", name)))
+            out.append(Case(P.pkt_line(fr, P.dollar_script()), ("trailer", name)))
+            out.append(Case(P.pkt_line(fr, P.random_read_script(rng, layers)), ("trailer", name)))
     # unstructured frames
     for _ in range(ctx.scale(300, 20000)):
         n = rng.choice([0, 1, 13, 14, 15, 18, 33, 34, 38, 54, 60, 74, 100])
